@@ -95,6 +95,7 @@ func runC16CLI(c *C16CLI, o *Outcome) *Outcome {
 		simtime.Uninstall()
 	}
 	var log []string
+	var digs []string // per-step digests of everything observable (determinism self-test)
 	fail := func(sig, f string, a ...any) *Outcome {
 		o.Violation = fmt.Sprintf(f, a...) + "\n  steps:\n    " + strings.Join(log, "\n    ")
 		o.Sig = "C16/cli-" + sig
@@ -163,6 +164,7 @@ func runC16CLI(c *C16CLI, o *Outcome) *Outcome {
 			return o
 		}
 		log = append(log, fmt.Sprintf("%s -> %s", quoteArgs(argsOf(args...)), exitDesc(res)))
+			digs = append(digs, stepDigest(res))
 		if res.Exit != "exit" {
 			return fail("crash:"+st.Kind, "step %d: %s crashed: %s", i, args[0], exitDesc(res))
 		}
@@ -325,6 +327,6 @@ func runC16CLI(c *C16CLI, o *Outcome) *Outcome {
 	o.Evals = w.steps
 	o.NonTrivial = w.steps > 1
 	o.Behaviour = fmt.Sprintf("cli pre=%d %s", c.Prefill, strings.Join(beh, ""))
-	o.Digest = digestOf(log)
+	o.Digest = digestOf([]any{log, digs})
 	return o
 }
